@@ -481,6 +481,23 @@ def check(inp):
     f = params[0]
     c0 = f * (1 - f)
 
+    if c == "acf-sequence":
+        # the real-space form is a function of the lags it is given: after an evaluation on one grid, the values on another grid of the same
+        # size and end points (other points in between) are those a fresh instance gives
+        ell = length_of(model, params)
+        a = np.linspace(0.0, 6 * ell, 64)
+        b = a[-1] * (a / a[-1]) ** 2
+        m = mk(model, params)
+        m.autocorrelation_function(a.copy())
+        got = np.asarray(m.autocorrelation_function(b.copy()), dtype=float)
+        want = np.asarray(mk(model, params).autocorrelation_function(b.copy()), dtype=float)
+        dev = float(np.max(np.abs(got - want)))
+        if not dev <= 1e-12 * c0:
+            j = int(np.argmax(np.abs(got - want)))
+            return (CLASSES[model][0] + ":acf-sequence", f"{CLASSES[model][0]}{tuple(params)}: after an evaluation on a uniform grid of 64 lags, the value at lag "
+                    f"{b[j]:.4e} of a quadratic grid with the same ends is {got[j]!r}; a fresh instance gives {want[j]!r}", dev, "<= 1e-12 f(1-f)")
+        return None
+
     if c == "reuse":
         # a layer whose density is updated in place (Layer.update writes microstructure.frac_volume): the numerically provided spectral
         # form must be that of the *current* parameters, i.e. equal the one of a layer built afresh with them
@@ -817,6 +834,8 @@ def oracle(ctx, hints, effort):
     for model in order:
         if model not in ("hom", "samp"):
             cases.append({"check": "args-untouched", "model": model, "params": rparams(rng, model)})
+        if model in ("exp", "sph", "ts", "use", "uts", "grf"):
+            cases.append({"check": "acf-sequence", "model": model, "params": rparams(rng, model)})
 
     for model, num in (("grf", False), ("exp", True), ("sph", True)):
         for _ in range(1 if effort == "routine" else 4):
